@@ -178,7 +178,7 @@ theorem resume_completes (sp : Spec) (orc : String → Bool) (rk : String → Na
 
 theorem step_qinv (sp : Spec) (orc : String → Bool) (rk : String → Nat) (hsp : SpecOK sp rk)
     (hstart : startTasks sp ≠ []) (w : World) (e : Event) (h : QInv sp orc w)
-    (ha : admissibleB orc w e = true) (hpc : PausedClean w) : QInv sp orc (step sp w e) := by
+    (ha : admissibleB orc w e = true) : QInv sp orc (step sp w e) := by
   have hss := semSpec_of_specOK sp rk hsp
   have hs' := step_sinv sp orc rk hss w e h.s (Imp.live_ji sp w h.live) ha
   have key : (isCompleted (step sp w e).wf = true → ∀ r ∈ (step sp w e).tasks, r.processed = true) ∧
@@ -201,7 +201,7 @@ theorem step_qinv (sp : Spec) (orc : String → Bool) (rk : String → Nat) (hsp
           obtain ⟨h2, h3⟩ := postCheck_completes sp orc rk hss w h hnc hc
           exact ⟨fun _ => h2, fun _ => h3⟩
       · exact ⟨fun h' => absurd h' hc, fun h' => absurd h' hc⟩
-  exact ⟨hs', Imp.live_step sp rk hsp hstart w e (admissible_lossless orc w e ha) hpc h.live,
+  exact ⟨hs', Imp.live_step sp rk hsp hstart w e (admissible_lossless orc w e ha) h.live,
     Props.C03.started_preserved sp w e h.started, step_tasks_ne sp w e h.ne, key.1, key.2⟩
 
 /-! ### the world after `start` -/
@@ -231,9 +231,8 @@ theorem start_qinv (sp : Spec) (orc : String → Bool) (rk : String → Nat) (hs
     (hstart : startTasks sp ≠ []) : QInv sp orc (step sp init .start) := by
   have hss := semSpec_of_specOK sp rk hsp
   have hs' := step_sinv sp orc rk hss init .start (sinv_init sp orc) (Imp.ji_init sp) rfl
-  have hpc : PausedClean init := by intro hp; simp [init] at hp
   have hl : lossless .start := by intro t he; cases he
-  have hlive := Imp.live_step sp rk hsp hstart init .start hl hpc (Imp.live_init sp)
+  have hlive := Imp.live_step sp rk hsp hstart init .start hl (Imp.live_init sp)
   have hwf : (step sp init .start).wf = .RUNNING := by
     simp only [step, init]
     simp only [bne_self_eq_false, Bool.false_eq_true, if_false]
@@ -259,37 +258,27 @@ theorem start_qinv (sp : Spec) (orc : String → Bool) (rk : String → Nat) (hs
       { target := n, src := none } rfl
     exact hne (List.eq_nil_of_length_eq_zero (by simpa using hlen))
 
-/-- the invariant along every admissible history inside the class of WP-A's liveness theorem -/
+/-- the invariant along every admissible history -/
 theorem qinv_from (sp : Spec) (orc : String → Bool) (rk : String → Nat) (hsp : SpecOK sp rk)
     (hstart : startTasks sp ≠ []) (evs : List Event) :
-    ∀ (w : World), QInv sp orc w → admB sp orc w evs = true →
-      (∀ n, PausedClean ((evs.take n).foldl (step sp) w)) → QInv sp orc (evs.foldl (step sp) w) := by
+    ∀ (w : World), QInv sp orc w → admB sp orc w evs = true → QInv sp orc (evs.foldl (step sp) w) := by
   induction evs with
-  | nil => intro w h _ _; exact h
+  | nil => intro w h _; exact h
   | cons e es ih =>
-    intro w h ha hc
+    intro w h ha
     have ha' : admissibleB orc w e = true ∧ admB sp orc (step sp w e) es = true := by
       simpa [admB] using ha
-    have h0 : PausedClean w := by simpa using hc 0
-    refine ih _ (step_qinv sp orc rk hsp hstart w e h ha'.1 h0) ha'.2 ?_
-    intro n
-    have := hc (n + 1)
-    simpa using this
+    exact ih _ (step_qinv sp orc rk hsp hstart w e h ha'.1) ha'.2
 
 theorem run_qinv (sp : Spec) (orc : String → Bool) (rk : String → Nat) (hsp : SpecOK sp rk)
     (hstart : startTasks sp ≠ []) (evs : List Event)
-    (ha : admB sp orc init (.start :: evs) = true)
-    (hc : ∀ n, PausedClean (((Event.start :: evs).take n).foldl (step sp) init)) :
-    QInv sp orc (run sp (.start :: evs)) := by
+    (ha : admB sp orc init (.start :: evs) = true) : QInv sp orc (run sp (.start :: evs)) := by
   have ha' : admB sp orc (step sp init .start) evs = true := by
     have : admissibleB orc init .start = true ∧ admB sp orc (step sp init .start) evs = true := by
       simpa [admB] using ha
     exact this.2
   show QInv sp orc (evs.foldl (step sp) (step sp init .start))
-  refine qinv_from sp orc rk hsp hstart evs _ (start_qinv sp orc rk hsp hstart) ha' ?_
-  intro n
-  have := hc (n + 1)
-  simpa using this
+  exact qinv_from sp orc rk hsp hstart evs _ (start_qinv sp orc rk hsp hstart) ha'
 
 /-! ### completeness at quiescence -/
 
